@@ -1,3 +1,7 @@
+pub mod bridge;
+pub mod emit;
 pub mod engine;
+pub mod gen;
 pub mod props;
+pub mod refmodel;
 pub mod tape;
